@@ -605,6 +605,8 @@ def main(argv):
 
                     def differs(c):
                         i, mo, _ = run_case_both(fam, c, pid)
+                        if "bad-op" in i or (mo and "bad-op" in mo):
+                            return False  # the candidate is not a well-formed case (dangling handle after deletion)
                         return mo is None or _filter_obs(i, opx) != _filter_obs(mo, opx)
                     ops = shrink(fam, m["ops"], differs) if len(m["ops"]) > 1 else m["ops"]
                     iobs, mobs, _ = run_case_both(fam, ops, pid)
